@@ -15,7 +15,8 @@
     the text carried by the LATEST one converts and validates, `x` holds exactly that value.  At the event
     "response arrived" this is the property's "once the subscribe call has returned, every variable carried by
     any early NOTIFY holds the value from the latest NOTIFY that carried it".
-  Domain (`evInScope`): one subscribe call per service, distinct SIDs, granted TIMEOUT inside C09's domain,
+  Domain (`evInScope`): one subscribe call at a time per service and none after a grant (a call that failed
+  may be repeated), distinct SIDs, granted TIMEOUT inside C09's domain,
   well-formed property sets (`C10.bodyWF`).  Judging stops at the first event outside the domain.
   Import-free (linked into the driver).
 -/
@@ -24,6 +25,7 @@ import Upnp.Spec.C10
 import Upnp.Spec.C09
 namespace Upnp.C11
 open Upnp PyDict Upnp.C09 Upnp.C10
+variable [FloatOracle]
 
 def hdrsOk (h : NHeaders) : Bool :=
   h.nt == some ntEvent && h.nts == some ntsPropchange && h.sid.isSome
@@ -31,7 +33,7 @@ def hdrsOk (h : NHeaders) : Bool :=
 structure Obs where
   ev : Ev
   out : Out
-  vals : List (List (Str × Option Val))   -- after the event: per service, per variable, `.value`
+  vals : List (List (Str × Val))   -- after the event: per service, per variable, `.value`
   cbs : List Nat := []                    -- after the event: per service, number of `on_event` invocations so far
 deriving Repr
 
@@ -46,8 +48,8 @@ deriving Repr
 def grantedSid (js : JS) (i : Nat) : Option Str := (js.granted.find? (·.1 == i)).map (·.2)
 
 def evInScope (js : JS) : Ev → Bool
-  | .start svc _ => !js.started.contains svc
-  | .notify n => !hdrsOk n.hdrs || bodyWF n.body
+  | .start svc _ => !js.pend.contains svc && (grantedSid js svc).isNone
+  | .notify n => !hdrsOk n.hdrs || (!n.malformed && bodyWF n.body)
   | .respond svc r =>
     !js.pend.contains svc ||
     (match r with
@@ -83,32 +85,32 @@ def latestText (x : Str) (sid : Str) (seen : List Notify) : Option Str :=
   ((seen.filter (fun n => n.hdrs.sid == some sid)).filterMap (fun n => carried x n.body)).getLast?
 
 /-- what the variable must read; `none` = no demand (the latest text is not a valid value) -/
-def expectedVal (d : Decl) (sid : Option Str) (seen : List Notify) : Option (Option Val) :=
+def expectedVal (d : Var) (sid : Option Str) (seen : List Notify) : Option Val :=
   match sid with
-  | none => some none
+  | none => some .none
   | some s =>
-    match latestText d.name s seen with
-    | none => some none
+    match latestText d.decl.name s seen with
+    | none => some .none
     | some text =>
-      match convert (inKindOf d.dtype) text with
-      | some v => if validate d v then some (some v) else none
-      | none => none
+      match convert d text with
+      | .ok v => if validate d v then some v else none
+      | .error _ => none
 
-def svcValsOk (ds : List Decl) (sid : Option Str) (seen : List Notify) (vs : List (Str × Option Val)) : Bool :=
+def svcValsOk (ds : List Var) (sid : Option Str) (seen : List Notify) (vs : List (Str × Val)) : Bool :=
   vs.length == ds.length &&
-  (ds.zip vs).all fun p => p.2.1 == p.1.name &&
+  (ds.zip vs).all fun p => p.2.1 == p.1.decl.name &&
     (match expectedVal p.1 sid seen with | some e => p.2.2 == e | none => true)
 
 /-- every service, by index -/
-def valsOkAux (js : JS) : Nat → List (List Decl) → List (List (Str × Option Val)) → Bool
+def valsOkAux (js : JS) : Nat → List (List Var) → List (List (Str × Val)) → Bool
   | _, [], [] => true
   | k, ds :: dr, vs :: vr => svcValsOk ds (grantedSid js k) js.seen vs && valsOkAux js (k + 1) dr vr
   | _, _, _ => false
 
-def valsOk (decls : List (List Decl)) (js : JS) (vals : List (List (Str × Option Val))) : Bool :=
+def valsOk (decls : List (List Var)) (js : JS) (vals : List (List (Str × Val))) : Bool :=
   valsOkAux js 0 decls vals
 
-def cbsOk (decls : List (List Decl)) (js : JS) (cbs : List Nat) : Bool :=
+def cbsOk (decls : List (List Var)) (js : JS) (cbs : List Nat) : Bool :=
   cbs.length == decls.length && cbsOkAux js 0 cbs
 
 def outOk (o : Obs) : Bool :=
@@ -116,7 +118,7 @@ def outOk (o : Obs) : Bool :=
   | .notify n => if hdrsOk n.hdrs then (match o.out with | .notified (.status 200) => true | _ => false) else true
   | _ => true
 
-def okFrom (decls : List (List Decl)) : JS → List Obs → Bool
+def okFrom (decls : List (List Var)) : JS → List Obs → Bool
   | _, [] => true
   | js, o :: rest =>
     if evInScope js o.ev then
@@ -124,8 +126,19 @@ def okFrom (decls : List (List Decl)) : JS → List Obs → Bool
         && okFrom decls (advance js o.ev) rest
     else true
 
+/-- diagnostics: index of the first rejected observation with the judge's bookkeeping at that point
+    (`okFrom` accepts ⇔ there is none: `Props/C11.ok_iff_no_first_bad`) -/
+def firstBadFrom (decls : List (List Var)) : JS → List Obs → Nat → Option (Nat × JS)
+  | _, [], _ => none
+  | js, o :: rest, i =>
+    if evInScope js o.ev then
+      if outOk o && valsOk decls (advance js o.ev) o.vals && cbsOk decls (advance js o.ev) o.cbs then
+        firstBadFrom decls (advance js o.ev) rest (i + 1)
+      else some (i, advance js o.ev)
+    else none
+
 /-- **C11.ok** -/
-def ok (decls : List (List Decl)) (h : List Obs) : Bool := okFrom decls {} h
+def ok (decls : List (List Var)) (h : List Obs) : Bool := okFrom decls {} h
 
 /-- the whole schedule is inside the domain -/
 def allInScope : JS → List Ev → Bool
@@ -134,11 +147,11 @@ def allInScope : JS → List Ev → Bool
 
 /-! ### the model's observations -/
 
-def initSvc (ds : List Decl) : Svc := { vars := ds.map fun d => { decl := d } }
-def initSt (decls : List (List Decl)) : St := { h := { svcs := decls.map initSvc } }
+def initSvc (ds : List Var) : Svc := { vars := ds.map Var.blank }
+def initSt (decls : List (List Var)) : St := { h := { svcs := decls.map initSvc } }
 
-def readVals (s : St) : List (List (Str × Option Val)) :=
-  s.h.svcs.map fun sv => sv.vars.map fun v => (v.decl.name, v.st.stored.read)
+def readVals (s : St) : List (List (Str × Val)) :=
+  s.h.svcs.map fun sv => sv.vars.map fun v => (v.decl.name, Stored.read v.st.stored)
 
 def readCbs (s : St) : List Nat := s.h.svcs.map (·.events.length)
 
